@@ -25,10 +25,20 @@ use crate::memory::cache_layout::{CacheOptimizedAllocator, CacheLayoutConfig, al
 use crate::memory::{get_optimal_numa_node, numa_alloc_aligned, numa_dealloc};
 // Memory pool integration (currently unused in this implementation)  
 // use crate::memory::SecureMemoryPool;
+#[cfg(not(zipora_verif))]
 use std::sync::{Arc, Mutex};
+#[cfg(zipora_verif)]
+use std::sync::Arc;
+#[cfg(zipora_verif)]
+use crate::verif::sync::Mutex;
 // Additional sync primitives (currently unused)
 // use std::sync::RwLock;
+#[cfg(not(zipora_verif))]
 use std::sync::atomic::{AtomicU32, AtomicUsize, Ordering};
+#[cfg(zipora_verif)]
+use crate::verif::sync::atomic::{AtomicU32, AtomicUsize};
+#[cfg(zipora_verif)]
+use std::sync::atomic::Ordering;
 // Additional utilities (currently unused)
 // use std::collections::HashMap;
 // use std::marker::PhantomData;
